@@ -217,7 +217,14 @@ func genRespSpec(rng *PRNG, name string) respSpec {
 				op["requestBody"] = map[string]any{"content": map[string]any{"application/octet-stream": map[string]any{"schema": map[string]any{"type": "string", "format": "binary"}}}}
 			} else {
 				bodySchema = Pick(rng, []string{"Pet", "Error", "Pets", "Tagged", "Counts"})
-				op["requestBody"] = map[string]any{"content": map[string]any{"application/json": map[string]any{"schema": map[string]any{"$ref": "#/components/schemas/" + bodySchema}}}}
+				content := map[string]any{"application/json": map[string]any{"schema": map[string]any{"$ref": "#/components/schemas/" + bodySchema}}}
+				if rng.Chance(1, 3) {
+					// JSON next to media types that sort before and after it: the JSON flavour is what the
+					// client sends, and it has to say so
+					content["application/cbor"] = map[string]any{"schema": map[string]any{"type": "string", "format": "binary"}}
+					content["text/plain"] = map[string]any{"schema": map[string]any{"type": "string"}}
+				}
+				op["requestBody"] = map[string]any{"content": content}
 			}
 		}
 		responses := map[string]any{}
